@@ -57,7 +57,8 @@ def normal_form(text, tmod):
                 order += [f"{node.name}.{x.name}" if hasattr(x, "name") else f"{node.name}.{x.target.id}" for x in node.body if hasattr(x, "name") or isinstance(x, ast.AnnAssign)]
         elif isinstance(node, ast.ImportFrom):
             order += [f"import {node.module}.{a.name}" for a in node.names]
-    return {"imports": sorted(imports), "classes": sorted(se.class_defs), "functions": funcs, "order": order, "tainted": sorted(tainted),
+    return {"imports": sorted(imports), "classes": sorted(se.class_defs) + [f"{n} x{c}" for n, c in sorted(se.td_def_counts.items()) if n not in collided],
+            "functions": funcs, "order": order, "tainted": sorted(tainted),
             "collided": sorted(collided)}, se
 
 
@@ -142,7 +143,19 @@ def work(p):
         abcf = gm.FuncSpec(96, "abc_family", [], "module", "plain")
         abcf.params = [gm.Param("h", "normal", vals=["AH1()", "AH2()", "AH3()", "AH4()", "AH5()", "AH6()"])]
         abcf.ret_vals = ["AH2()", "AH1()", "AH4()", "AH3()", "AH6()", "AH5()"]
-        extra = [fam, tdf, tup, abcf]
+        # two functions sharing a parameter name and receiving the same differently-keyed dicts: the generated classes are identical
+        dds = []
+        for nm in ("dd_a", "dd_b"):
+            f = gm.FuncSpec(80 + len(dds), nm, [], "module", "plain")
+            f.params = [gm.Param("opts", "normal", vals=["{'a': 1, 'c': 2}", "{'b': 1, 'c': 2}", "{'c': 3}"])]
+            f.ret_vals = ["1"]
+            dds.append(f)
+        # a function whose signature grew a parameter while rows traced under the old signature are still stored
+        hist = gm.FuncSpec(79, "hist_family", [], "module", "plain")
+        hist.params = [gm.Param("a", "normal", vals=["1", "'s'"]), gm.Param("retries", "normal", default="3", vals=["3", "None"])]
+        hist.ret_vals = ["1"]
+        extra = [fam, tdf, tup, abcf] + dds + [hist]
+        nfixed = len(extra)
         if spec.get("collide"):
             # pinned witness of the listed finding: two functions share a parameter name and get differently shaped dicts
             for nm, val in (("tc_a", "{'x': 1}"), ("tc_b", "{'y': 's'}")):
@@ -161,8 +174,12 @@ def work(p):
             continue
         k = spec["k"]
         plan = m.call_plan(rng, None, ncalls=(4, 12)) + [(fam, [v], {}) for v in fam.params[0].vals] + [(tdf, [v], {}) for v in tdf.params[0].vals] + [(tup, [v], {}) for v in tup.params[0].vals] + [(abcf, [v], {}) for v in abcf.params[0].vals]
-        plan += [(f, [f.params[0].vals[0]], {}) for f in extra[4:]]
+        plan += [(f, [v], {}) for f in dds for v in f.params[0].vals] + [(hist, [v, w], {}) for v in hist.params[0].vals for w in hist.params[1].vals]
+        plan += [(f, [f.params[0].vals[0]], {}) for f in extra[nfixed:]]
         traces = modrun.trace_plan(tmod, path, m, plan, k)
+        from monkeytype.tracing import CallTrace
+
+        traces += [CallTrace(tmod.hist_family, {"a": int}, int), CallTrace(tmod.hist_family, {"a": str}, int), CallTrace(tmod.hist_family, {"a": float}, int)]
         uniq = []
         seen = set()
         for t in traces:
